@@ -230,7 +230,7 @@ ReExecuteCore ==
 ReExecute ==
     /\ ReExecuteCore
     /\ ret' = <<>>
-    /\ hist' = Rec([op |-> "ReExecute", ver |-> mver + 1, blk |-> blk'])
+    /\ hist' = Rec([op |-> "ReExecute", ver |-> mver + 1, blk |-> blk', why |-> why])
 
 \* After a rollback (or a crash that left nothing behind) different blocks may be decided
 \* instead: the reference node is then a node that executed chain[1..mver] only.
@@ -258,7 +258,7 @@ BeginCommitCore ==
 BeginCommit ==
     /\ BeginCommitCore
     /\ ret' = <<>>
-    /\ hist' = Rec([op |-> "BeginCommit", ver |-> mver + 1, new |-> ~CatchingUp, blk |-> blk,
+    /\ hist' = Rec([op |-> "BeginCommit", ver |-> mver + 1, new |-> ~CatchingUp, blk |-> blk, why |-> why,
                     rh |-> IdsOf(digs', RefDigestOf(chain', mver + 1))])
 
 \* iavl.Store.Commit -> MutableTree.SaveVersion of substore s (any order: Go map iteration)
